@@ -57,7 +57,7 @@ SafeChars == {"a","b","c","d","e","f","g","h","i","j","k","l","m","n","o","p","q
               "0","1","2","3","4","5","6","7","8","9","_",".","-","~","/", ABLK}
 
 \* written as CASE expressions (TLC re-evaluates function-valued definitions on every use: measured 70 states/s)
-Coded == {" ", "!", "\"", "#", "$", "%", "&", "'", "(", ")", "*", "+", ",", ":", ";", "<", "=", ">", "?", "@", "[", "\\", "]", BLK, "|", "\t", "\n", "\r", HI, REPL}
+Coded == {" ", "!", "\"", "#", "$", "%", "&", "'", "(", ")", "*", "+", ",", ":", ";", "<", "=", ">", "?", "@", "[", "\\", "]", BLK, "|", "\f", "\t", "\n", "\r", HI, REPL}
 CodeOf(c) ==
     CASE c = " " -> "20"
       [] c = "!" -> "21"
@@ -85,6 +85,7 @@ CodeOf(c) ==
       [] c = BLK -> "{{"                 \* the percent-coded block (3 * BlockBytes characters on the wire)
       [] c = "|" -> "7C"
       [] c = "\t" -> "09"
+      [] c = "\f" -> "0C"
       [] c = "\n" -> "0A"
       [] c = "\r" -> "0D"
       [] c = HI -> HiCode
@@ -95,7 +96,7 @@ HexLower(h) == LET l(c) == CASE c = "A" -> "a" [] c = "B" -> "b" [] c = "C" -> "
                IN l(Ch(h, 1)) \o l(Ch(h, 2))
 
 \* decoding: every code above in both letter cases plus the codes of a few safe characters; other pairs stay literal
-Decodable(h) == h \in {"20", "21", "22", "23", "24", "25", "26", "27", "28", "29", "2A", "2a", "2B", "2b", "2C", "2c", "3A", "3a", "3B", "3b", "3C", "3c", "3D", "3d", "3E", "3e", "3F", "3f", "40", "5B", "5b", "5C", "5c", "5D", "5d", "7C", "7c", "09", "0A", "0a", "0D", "0d", "41", "61", "62", "2F", "2f", "2E", "2e", "2D", "2d", "5F", "5f", "7E", "7e", "30", "31", "{{"} \/ h = HiCode \/ h = HexLower(HiCode)
+Decodable(h) == h \in {"20", "21", "22", "23", "24", "25", "26", "27", "28", "29", "2A", "2a", "2B", "2b", "2C", "2c", "3A", "3a", "3B", "3b", "3C", "3c", "3D", "3d", "3E", "3e", "3F", "3f", "40", "5B", "5b", "5C", "5c", "5D", "5d", "7C", "7c", "09", "0A", "0a", "0D", "0d", "41", "61", "62", "2F", "2f", "2E", "2e", "2D", "2d", "5F", "5f", "7E", "7e", "30", "31", "{{", "0C", "0c"} \/ h = HiCode \/ h = HexLower(HiCode)
 DecodeOf(h) ==
     CASE h = "20" -> " "
       [] h = "21" -> "!"
@@ -136,6 +137,8 @@ DecodeOf(h) ==
       [] h = "7C" -> "|"
       [] h = "7c" -> "|"
       [] h = "09" -> "\t"
+      [] h = "0C" -> "\f"
+      [] h = "0c" -> "\f"
       [] h = "0A" -> "\n"
       [] h = "0a" -> "\n"
       [] h = "0D" -> "\r"
@@ -525,7 +528,8 @@ MapLines(base, target) ==             \* gophermap.py: a selector starting with 
 \* site map: every directory tree also has a named map file in the root that links (absolute selectors) straight to
 \* the children and grandchildren, so each deep object is advertised by a listing whose own reachability does not
 \* depend on the object's parent.  A gophermap field cannot carry leading/trailing blanks, TAB or LF.
-SiteOk(x) == Strip(x) = x /\ Find(x, cTAB) = 0 /\ Find(x, cLF) = 0
+\* and the map is authored text: it only names objects the selector filter accepts (cf. MapOk in MC_C05)
+SiteOk(x) == Strip(x) = x /\ Find(x, cTAB) = 0 /\ Find(x, cLF) = 0 /\ Secure(x)
 SiteTargets(c) == {x \in {InnerSel(c)} \cup (IF c.ik = "dir" THEN {InnerSel(c) \o "/leaf"} ELSE {})
                               \cup (IF c.ik = "mapfile" THEN {Subj(c) \o "/" \o c.m} ELSE {}) : SiteOk(x)}
 MaildirParts(c) == {Subj(c) \o "/new", Subj(c) \o "/cur", Subj(c) \o "/tmp"}
